@@ -352,6 +352,7 @@ type EnumCfg struct {
 	MaxDepth   int  `json:"maxDepth"`   // and this depth (a leaf has depth 1)
 	MaxArity   int  `json:"maxArity"`   // and/or/arith arity 2..MaxArity
 	Variants   int  `json:"variants"`   // label rotations per skeleton (>= 1)
+	VarNodes   int  `json:"varNodes"`   // skeletons larger than this get ONE rotation, chosen round-robin (0: all get `variants`)
 	MaxSources int  `json:"maxSources"` // cap; beyond it a deterministic stride sample of the larger sizes is kept
 	Curated    bool `json:"curated"`    // include the curated shapes
 	Random     int  `json:"random"`     // number of seeded random deeper trees
@@ -611,7 +612,12 @@ func Enumerate(cfg EnumCfg, seed int64) (srcs []*Src, info map[string]interface{
 		for _, ty := range types {
 			for _, sk := range g.gen(ty, n, cfg.MaxDepth) {
 				nSkel++
-				for v := 0; v < cfg.Variants; v++ {
+				v0, v1 := 0, cfg.Variants
+				if cfg.VarNodes > 0 && n > cfg.VarNodes {
+					v0 = nSkel % 4
+					v1 = v0 + 1
+				}
+				for v := v0; v < v1; v++ {
 					s := instantiate(sk, v)
 					t := s.String()
 					if !seen[t] {
